@@ -78,12 +78,12 @@ def configs(tier):
         t(1, 2, 3, "eager", d(7, 12), ["in1+", "in2+", "in2-", "o1d0f", "o3d1b", "o3d0b", "out-other", "in-other"]),
         # shared bus: the host also acknowledges IN data of another device
         t(1, 1, 1, "eager", d(7, 12), ["in1+", "in1-", "in2+", "in2-", "o1d0b", "o3d0b", "ack-other", "in-other"]),
-        t(2, 8, 8, "eager", d(5, 7), ["in1+", "in1-", "in2+", "in2-", "o1d1b", "ack-other", "sof"]),
+        t(2, 8, 8, "eager", d(5, 7), ["in1+", "in1-", "in2+", "in2-", "o1d0b", "ack-other", "sof"]),
     ]
     if not q:
         cs += [
             t(1, 1, 1, "eager", 8, ["in1+", "in1-", "in2+", "in2-", "o1d0b", "o1d1b", "o1d0f", "o3d0b", "o3d1b", "o3d0f", "in3", "o2", "sof"]),
-            t(4, 1, 2, "eager", 8, ["in1+", "in1-", "in2+", "in2-", "o1d0b", "o1d0x", "o3d1b", "o3d0x", "in4", "o4", "in-other", "out-other"]),
+            t(4, 1, 2, "eager", 8, ["in1+", "in1-", "in2+", "in2-", "o1d0b", "o1d0x", "o3d0b", "o3d1b", "o3d0x", "in4", "o4", "in-other"]),
             t(1, 1, 1, "stalled", 8, ["in1+", "in2+", "o1d0f", "o1d1f", "o1d0b", "o3d0f", "o3d1f", "drain1", "drain3", "ping1", "ping3", "ping2"]),
             t(2, 8, 1, "stalled", 8, ["o1d0f", "o1d1f", "o3d0f", "o3d1b", "drain1", "drain3", "in1+", "in1-"]),
             t(7, 3, 4, "eager", 10, ["in1+", "in1-", "in2-", "o1d1b", "o1d0z", "o3d0b", "o3d1z", "in3", "sof"]),
